@@ -511,7 +511,7 @@ def extremum_loops(ctx, module_prefixes):
 
 
 # ------------------------------------------------------------------------------------------------------------
-def _fresh_value(v):
+def _fresh_value(v, ctx=None, depth=0):
     if isinstance(v, (ast.List, ast.Dict, ast.Set)) and not (getattr(v, "elts", None) or getattr(v, "keys", None)):
         return True
     if isinstance(v, ast.Call) and isinstance(v.func, ast.Name):
@@ -519,6 +519,23 @@ def _fresh_value(v):
             return True
         if v.func.id[:1].isupper():
             return True          # constructor
+        if ctx is not None and depth < 2:
+            # a factory: a project function all of whose returns hand out an object it has just created
+            cands = [g for g in ctx.p.functions.values() if g.name == v.func.id and g.cls is None]
+            if len(cands) == 1:
+                g = cands[0]
+                rets = [r for r in own_nodes(g.node) if isinstance(r, ast.Return)]
+                if rets and all(r.value is not None and _factory_result(r.value, g, ctx, depth + 1) for r in rets):
+                    return True
+    return False
+
+
+def _factory_result(e, g, ctx, depth):
+    if _fresh_value(e, ctx, depth):
+        return True
+    if isinstance(e, ast.Name):
+        defs = [n for n in own_nodes(g.node) if isinstance(n, ast.Assign) and len(n.targets) == 1 and isinstance(n.targets[0], ast.Name) and n.targets[0].id == e.id]
+        return bool(defs) and all(_fresh_value(d.value, ctx, depth) for d in defs) and e.id not in g.params
     return False
 
 
@@ -535,7 +552,7 @@ def co_renewed_state(ctx, module_prefixes):
                 continue
             pre = {}
             for st in body[:li]:
-                if isinstance(st, ast.Assign) and len(st.targets) == 1 and isinstance(st.targets[0], ast.Name) and _fresh_value(st.value):
+                if isinstance(st, ast.Assign) and len(st.targets) == 1 and isinstance(st.targets[0], ast.Name) and _fresh_value(st.value, ctx):
                     pre[st.targets[0].id] = st
             if len(pre) < 2:
                 continue
@@ -544,7 +561,7 @@ def co_renewed_state(ctx, module_prefixes):
             def scan(stmts):
                 renewed = {}
                 for st in stmts:
-                    if isinstance(st, ast.Assign) and len(st.targets) == 1 and isinstance(st.targets[0], ast.Name) and st.targets[0].id in pre and _fresh_value(st.value):
+                    if isinstance(st, ast.Assign) and len(st.targets) == 1 and isinstance(st.targets[0], ast.Name) and st.targets[0].id in pre and _fresh_value(st.value, ctx):
                         renewed[st.targets[0].id] = st
                     for fld in ("body", "orelse", "finalbody"):
                         sub = getattr(st, fld, None)
